@@ -89,6 +89,8 @@ impl fmt::Binary for RefInt {
 define_ops! {
     to_base_le = |a: U, b: W| a.to_base_le(b).collect::<Vec<u64>>();
     to_base_be = |a: U, b: W| a.to_base_be(b).collect::<Vec<u64>>();
+    // the digit iterators driven through provided Iterator methods instead of collect()
+    to_base_iter = |a: U, b: W, k: N| ((a.to_base_le(b).count(), a.to_base_le(b).last(), a.to_base_le(b).nth(k)), (a.to_base_be(b).count(), a.to_base_be(b).last(), a.to_base_be(b).nth(k)), (a.to_base_le(b).skip(k).collect::<Vec<u64>>(), a.to_base_be(b).take(k).collect::<Vec<u64>>(), a.to_base_le(b).fold(0u64, |x, d| x.wrapping_mul(31).wrapping_add(d))), { let mut it = a.to_base_be(b); let first = it.next(); let rest: Vec<u64> = it.collect(); (first, rest) });
     from_base_le = |b: W, d: LS| Uint::<B, L>::from_base_le(b, d);
     from_base_be = |b: W, d: LS| Uint::<B, L>::from_base_be(b, d);
     from_str_radix = |s: ST, r: W| Uint::<B, L>::from_str_radix(&s, r);
@@ -227,6 +229,28 @@ fn model(bits: usize, op: Op, args: &[V]) -> Expect {
             }
             is(nl(&d)).nt(d.len() > 1)
         }
+        to_base_iter => {
+            let a = big(args[0].limbs());
+            let b = args[1].as_n() as u64;
+            let k = args[2].as_n() as usize;
+            if b < 2 {
+                return is(V::Panic).nt(true);
+            }
+            if a.is_zero() {
+                // zero may be rendered as no digit or as one zero digit (see to_base_le)
+                return dont_care();
+            }
+            let le = digits_le(&a, b);
+            let be: Vec<u64> = le.iter().rev().copied().collect();
+            let o = |x: Option<&u64>| x.map_or(V::None, |d| V::some(V::N(*d as u128)));
+            is(V::T(vec![
+                V::T(vec![V::n(le.len()), o(le.last()), o(le.get(k))]),
+                V::T(vec![V::n(be.len()), o(be.last()), o(be.get(k))]),
+                V::T(vec![nl(&le[k.min(le.len())..]), nl(&be[..k.min(be.len())]), V::N(le.iter().fold(0u64, |x, d| x.wrapping_mul(31).wrapping_add(*d)) as u128)]),
+                V::T(vec![o(be.first()), nl(&be[1..])]),
+            ]))
+            .nt(le.len() > 1)
+        }
         from_base_le | from_base_be => {
             let b = args[0].as_n() as u64;
             let d: Vec<u64> = <Vec<u64> as FromV<0, 0>>::from_v(&args[1]);
@@ -364,6 +388,9 @@ fn c09(r: &Runner) {
                 l.states(1);
                 exec(l, bits, Op::to_base_le, &[a.clone(), V::N(b as u128)]);
                 exec(l, bits, Op::to_base_be, &[a.clone(), V::N(b as u128)]);
+                for k in [0usize, 1, 2, 5] {
+                    exec(l, bits, Op::to_base_iter, &[a.clone(), V::N(b as u128), V::n(k)]);
+                }
                 if b >= 2 {
                     let dg = digits_le(&v, b);
                     let be: Vec<u64> = dg.iter().rev().copied().collect();
@@ -514,7 +541,7 @@ fn c09(r: &Runner) {
     for &bits in pw {
         r.universe(&format!("{} strings of length <= 3 x radix 0..=66", strs.len()), bits, strs.len(), |i, l| {
             let s = V::S(strs[i].clone());
-            for radix in 0..=66u64 {
+            for radix in (0..=66u64).chain([255, 256, 266, (1 << 8) + 16, (1 << 16) + 10, (1 << 32) + 2, (1 << 32) + 10, (1 << 32) + 16, (1 << 32) + 36, (1 << 32) + 64, (1 << 33) + 10, (1 << 63) + 10, u64::MAX - 5, u64::MAX]) {
                 l.states(1);
                 exec(l, bits, Op::from_str_radix, &[s.clone(), V::N(radix as u128)]);
             }
